@@ -265,8 +265,53 @@ drift = os.path.exists(base) and open(base).read() != text
 # Which functions of the tower call the functions the model gives a special role to. The model's
 # theorems enumerate these call sites; a new caller (or a moved one) changes the generated lists and
 # breaks the theorems that pin them (C01, C02, C04).
+def blank_comments_and_literals(t):
+    """comments removed, the contents of string and character literals blanked (so that braces, `//` and
+    quotes inside them cannot confuse the structure analysis)"""
+    out, i, n = [], 0, len(t)
+    while i < n:
+        c = t[i]
+        if t.startswith("//", i):
+            while i < n and t[i] != "\n":
+                i += 1
+        elif t.startswith("/*", i):
+            depth, i = 1, i + 2
+            while i < n and depth:
+                if t.startswith("/*", i):
+                    depth, i = depth + 1, i + 2
+                elif t.startswith("*/", i):
+                    depth, i = depth - 1, i + 2
+                else:
+                    i += 1
+        elif c == '"' or (c == "r" and re.match(r'r#*"', t[i:]) and (i == 0 or not (t[i - 1].isalnum() or t[i - 1] == "_"))):
+            if c == "r":
+                m = re.match(r'r(#*)"', t[i:])
+                close = '"' + m.group(1)
+                j = t.find(close, i + len(m.group(0)))
+                j = n if j < 0 else j + len(close)
+            else:
+                j = i + 1
+                while j < n and t[j] != '"':
+                    j += 2 if t[j] == "\\" else 1
+                j += 1
+            out.append('""')
+            i = j
+        elif c == "'":
+            m = re.match(r"'(\\.[^']*|[^\\'])'", t[i:])
+            if m:
+                out.append("' '")
+                i += len(m.group(0))
+            else:
+                out.append(c)       # a lifetime
+                i += 1
+        else:
+            out.append(c)
+            i += 1
+    return "".join(out)
+
+
 def non_test(path):
-    t = strip_comments(src(path))
+    t = blank_comments_and_literals(src(path))
     k = t.find("#[cfg(test)]")
     return t if k < 0 else t[:k]
 
@@ -337,6 +382,50 @@ elif os.path.exists(cbase):
     fallback["calls"] = "call sites not located; baseline used"
     if not os.path.exists(cpath) or open(cpath).read() != open(cbase).read():
         open(cpath, "w").write(open(cbase).read())
+
+# ---------------------------------------------------------------- the client's call sites: Gen/PluginCalls.lean
+plugin_files = [("main", "watchtower-plugin/src/main.rs"), ("retrier", "watchtower-plugin/src/retrier.rs"),
+                ("wt_client", "watchtower-plugin/src/wt_client.rs")]
+pcalls = [
+    ("setStatus", callers(plugin_files, r"\.set_tower_status\(", r"[^;]*?TowerStatus::(\w+)")),
+    ("addPending", callers(plugin_files, r"\.add_pending_appointment\(")),
+    ("addInvalid", callers(plugin_files, r"\.add_invalid_appointment\(")),
+    ("removePending", callers(plugin_files, r"\.remove_pending_appointment\(")),
+    ("addReceipt", callers(plugin_files, r"\.add_appointment_receipt\(")),
+    ("flagMisbehaving", callers(plugin_files, r"\.flag_misbehaving_tower\(")),
+    ("addUpdateTower", callers(plugin_files, r"\.add_update_tower\(")),
+    ("removeTower", callers(plugin_files, r"\.remove_tower\(")),
+]
+plib = strip_comments(src("watchtower-plugin/src/lib.rs"))
+m = re.search(r"pub enum TowerStatus\s*\{(.*?)\}", plib, flags=re.S)
+status_variants = re.findall(r"(\w+)\s*,", m.group(1)) if m else []
+m = re.search(r"impl fmt::Display for TowerStatus.*?match self\s*\{(.*?)\}", plib, flags=re.S)
+status_names = re.findall(r"TowerStatus::(\w+)\s*=>\s*\"([^\"]+)\"", m.group(1)) if m else []
+b = fn_body(plib, "is_retryable")
+retryable = re.findall(r"self\.is_(\w+)\(\)", b) if b else []
+ppath = os.path.join(gen_dir, "PluginCalls.lean")
+pbase = os.path.join(base_dir, "PluginCalls.lean.txt")
+if all(l for _, l in pcalls) and not any(n == "?" or x == "?" for _, l in pcalls for _, n, x in l) and status_variants and status_names and retryable:
+    C = ["/- GENERATED by tools/extract.py from the non-test source of watchtower-plugin/src: which function of the",
+         "   client changes a tower's status (and to what), records or moves an appointment, flags a tower;",
+         "   the `TowerStatus` variants, their display names and which of them `is_retryable`. Do not edit. -/",
+         "namespace Teos.Gen.PluginCalls", ""]
+    for name, l in pcalls:
+        C.append(f"def {name} : List (String × String × String) := [" + ", ".join(f"({cq(a)}, {cq(b_)}, {cq(c)})" for a, b_, c in l) + "]")
+    C.append("def statusVariants : List String := [" + ", ".join(cq(v) for v in status_variants) + "]")
+    C.append("def statusNames : List (String × String) := [" + ", ".join(f"({cq(a)}, {cq(b_)})" for a, b_ in status_names) + "]")
+    C.append("def retryable : List String := [" + ", ".join(cq(v) for v in retryable) + "]")
+    C += ["", "end Teos.Gen.PluginCalls"]
+    t = "\n".join(C) + "\n"
+    if not os.path.exists(ppath) or open(ppath).read() != t:
+        open(ppath, "w").write(t)
+    found["plugin_calls"] = str(sum(len(l) for _, l in pcalls))
+    if os.path.exists(pbase) and open(pbase).read() != t:
+        found["plugin_calls_differs_from_baseline"] = "true"
+elif os.path.exists(pbase):
+    fallback["plugin_calls"] = "call sites not located; baseline used"
+    if not os.path.exists(ppath) or open(ppath).read() != open(pbase).read():
+        open(ppath, "w").write(open(pbase).read())
 
 print(json.dumps({"found": len(found), "fallback": fallback, "differs_from_baseline": bool(drift), "items": found}))
 
